@@ -454,6 +454,18 @@ Section NoPanic.
     destruct r; intro H; inversion H; subst. exact H5.
   Qed.
 
+  (* an Ok result satisfies the index invariant: every name index is in range, the adjacency
+     vectors have one row per node, every stored pair has its adjacency entries *)
+  Theorem new_from_NP : forall (ns : list node) (es : list edge) s g,
+    new_from_nodes_and_edges teqb tltb ns es s = Ok g -> NP g.
+  Proof.
+    intros ns es s g. unfold new_from_nodes_and_edges.
+    destruct (add_nodes_np ns (new s) (NP_new s)) as [g1 [E1 [Hg1 Hs1]]]. rewrite E1. cbn [bind].
+    pose proof (add_edges_np es g1 Hg1) as [H1 _].
+    destruct (add_edges teqb tltb g1 es) as [g2 r]. cbn [fst] in *.
+    destruct r; intro H; inversion H; subst. exact H1.
+  Qed.
+
   Theorem new_from_specs : forall (ns : list node) (es : list edge) s g,
     new_from_nodes_and_edges teqb tltb ns es s = Ok g -> sp g = s.
   Proof.
